@@ -772,7 +772,7 @@ func (s *session) closeLocked() error {
 	if !s.tryChangeStatus(statusActiveClosing, statusOk, statusPreparing) {
 		return nil
 	} // readDisconnected is being called
-	s.peer.sessHub.delete(s.ID())
+	s.peer.sessHub.deleteSession(s)
 	s.notifyClosed()
 	s.graceCtxWait()
 	s.graceCallCmdWaitGroup.Wait()
@@ -792,7 +792,7 @@ func (s *session) readDisconnected(oldConn net.Conn, err error) {
 		s.changeStatus(statusPassiveClosing)
 	}
 
-	s.peer.sessHub.delete(s.ID())
+	s.peer.sessHub.deleteSession(s)
 
 	var reason string
 	if err != nil && err != socket.ErrProactivelyCloseSocket {
@@ -1001,6 +1001,14 @@ func (sh *SessionHub) random() (*session, bool) {
 // NOTE: the count implemented using sync.Map may be inaccurate.
 func (sh *SessionHub) len() int {
 	return sh.sessions.Len()
+}
+
+// deleteSession deletes the *session, unless a newer session has taken over its id.
+func (sh *SessionHub) deleteSession(sess *session) {
+	id := sess.ID()
+	if cur, ok := sh.sessions.Load(id); ok && cur.(*session) == sess {
+		sh.sessions.Delete(id)
+	}
 }
 
 // delete deletes the *session for a id.
